@@ -42,7 +42,8 @@ pub struct Map {
     pub n: usize,
     /// number of `write` calls ever made (observation aid)
     pub writes: usize,
-    pub script: [i8; 16],
+    /// 4 bits per scripted lookup (0xF = MISS), packed into a scalar: array cells of this static lose constness in CBMC
+    pub script: u64,
     pub script_len: usize,
     pub script_pos: usize,
     /// strict: a lookup beyond the script is an error (asserted) and resolves to a miss
@@ -52,19 +53,38 @@ pub static MAP: Mutex<Map> = Mutex::new(Map {
     items: [None, None, None, None, None, None, None, None],
     n: 0,
     writes: 0,
-    script: [0; 16],
+    script: 0,
     script_len: 0,
     script_pos: 0,
     strict: false,
 });
+/// Forget everything (a harness that runs several independent scenarios starts each from an empty store).
+pub fn reset() {
+    let g = MAP.lock().unwrap();
+    let mut i = 0;
+    while i < CAP {
+        if let Some(kv) = g.items[i].take() {
+            std::mem::forget(kv);
+        }
+        i += 1;
+    }
+    g.n = 0;
+    g.writes = 0;
+    g.script_len = 0;
+    g.script_pos = 0;
+    g.strict = false;
+}
 /// Expected resolution of the next lookups: slot index (insertion order) or MISS. Lookups beyond the script are generic.
 pub fn script(s: &[i8]) {
     let g = MAP.lock().unwrap();
+    let mut w: u64 = 0;
     let mut i = 0;
     while i < s.len() {
-        g.script[i] = s[i];
+        let nib: u64 = if s[i] < 0 { 0xF } else { s[i] as u64 };
+        w |= nib << (4 * i);
         i += 1;
     }
+    g.script = w;
     g.script_len = s.len();
     g.script_pos = 0;
     g.strict = false;
@@ -88,6 +108,23 @@ impl Store {
     pub async fn write(&mut self, key: Key, value: Value) {
         let g = MAP.lock().unwrap();
         g.writes += 1;
+        if g.strict {
+            // scripted mode: a write is expected to add a new key (asserted), so no slot is conditionally overwritten
+            let mut i = 0;
+            while i < g.n {
+                if let Some((k, _)) = &g.items[i] {
+                    assert!(!keq(k, &key), "verif-script: write to a key that is already stored");
+                }
+                i += 1;
+            }
+            if g.n >= CAP {
+                panic!("store shim: capacity bound exceeded");
+            }
+            let n = g.n;
+            g.items[n] = Some((key, value));
+            g.n += 1;
+            return;
+        }
         let mut i = 0;
         while i < g.n {
             let same = match &g.items[i] {
@@ -120,9 +157,9 @@ impl Store {
     pub fn get(&self, key: &[u8]) -> Option<Value> {
         let g = MAP.lock().unwrap();
         if g.script_pos < g.script_len {
-            let s = g.script[g.script_pos];
+            let s = (g.script >> (4 * g.script_pos)) & 0xF;
             g.script_pos += 1;
-            if s >= 0 {
+            if s != 0xF {
                 let i = s as usize;
                 match &g.items[i] {
                     Some((k, v)) => {
